@@ -8,7 +8,7 @@ import sim_engine as SE
 from par import pmap
 
 PROP = "C02"
-PROPERTY_FILES = ["Properties/C02.v", "Properties/C02pool.v"]
+PROPERTY_FILES = ["Properties/C02.v", "Properties/C02pool.v", "Properties/C02pubsub.v"]
 META = dict(
     level_text="Theorems (Coq) about the engine model (four FIFO task queues + blocking handler, wired as BoboEngine "
                "does), for every engine configuration (times_* any naturals, early_stop on/off), every pattern set, "
@@ -592,6 +592,79 @@ def closed_handler_engine():
     return None
 
 
+def pubsub_impl(publisher, calls):
+    """subscribe calls (subscriber numbers) on a fresh publisher of the named kind, then ONE notification: the numbers
+    of the subscribers called back, in order"""
+    from bobocep.cep.action.handler import BoboActionHandlerBlocking
+    from bobocep.cep.engine.receiver.pubsub import BoboReceiverSubscriber
+    from bobocep.cep.engine.decider.pubsub import BoboDeciderSubscriber
+    from bobocep.cep.engine.producer.pubsub import BoboProducerSubscriber
+    from bobocep.cep.engine.forwarder.pubsub import BoboForwarderSubscriber
+    from bobocep.cep.phenom.pattern.builder import BoboPatternBuilder
+    from bobocep.cep.phenom.phenom import BoboPhenomenon
+    from bobocep.cep.action.action import BoboAction
+    from bobocep.setup.simple import BoboSetupSimple
+    got = []
+
+    class Spy(BoboReceiverSubscriber, BoboDeciderSubscriber, BoboProducerSubscriber, BoboForwarderSubscriber):
+        def __init__(self, k):
+            self.k = k
+
+        def on_receiver_update(self, event):
+            got.append(self.k)
+
+        def on_decider_update(self, completed, halted, updated, local):
+            got.append(self.k)
+
+        def on_producer_update(self, event, local):
+            got.append(self.k)
+
+        def on_forwarder_update(self, event):
+            got.append(self.k)
+
+    class Act(BoboAction):
+        def execute(self, event):
+            return True, None
+    pat = BoboPatternBuilder("p").followed_by(lambda e, h: e.data == 1).generate()
+    ph = BoboPhenomenon(name="ph", patterns=[pat], action=Act("act"))
+    engine = BoboSetupSimple(phenomena=[ph], handler=BoboActionHandlerBlocking()).generate()
+    task = getattr(engine, publisher)
+    spies = {}
+    for k in calls:
+        task.subscribe(spies.setdefault(k, Spy(k)))
+    engine.receiver.add_data(1)          # one simple event -> one completed run -> one complex event -> one action event
+    want = {"receiver": 3}.get(publisher, 1)   # the complex and the action event re-enter through the receiver
+    for _ in range(6):
+        engine.update()
+    return got, want
+
+
+def pubsub_half(ctx, res):
+    """Model/PubSub.v (Properties/C02pubsub.v): the four tasks as publishers, random sequences of subscribe() calls with
+    repeats, then one datum through the engine"""
+    rng = ctx.rng
+    cases, meta = [], []
+    for n in range(40 if ctx.quick else 400):
+        pub = ("receiver", "decider", "producer", "forwarder")[n % 4]
+        calls = [rng.randint(1, 4) for _ in range(rng.randint(0, 7))]
+        got, want = pubsub_impl(pub, calls)
+        first = got[:len(got) // want] if want and len(got) % want == 0 else got
+        res.note_case(("pubsub", pub, tuple(calls)), len(set(calls)) < len(calls))
+        if got != first * want or any(first.count(k) != 1 for k in set(calls)) or set(first) != set(calls):
+            res.failures.append(dict(signature="subscriber-not-called-once-per-notification", detail=None,
+                                     what="%s, subscribe() called for subscribers %s, one datum through the engine (%d "
+                                          "notification(s) of this task): callbacks went to %s" % (pub, calls, want, got),
+                                     case=dict(pubsub=pub, calls=calls)))
+        cases.append(("[%s]" % "; ".join(str(k) for k in calls), first))
+        meta.append((pub, calls))
+    mism, errs = common.coq_run_cases("C02P", "Model.PubSub", "run_C02_pubsub", "(list Z)", cases)
+    res.errors += errs
+    res.traces_validated += len(cases) - len(mism)
+    for idx, mo in mism[:5]:
+        res.mismatches.append(dict(case=dict(pubsub=meta[idx][0], calls=meta[idx][1]), impl=cases[idx][1], model=mo))
+    res.extra["pubsub_cases"] = len(cases)
+
+
 def setup_half(ctx, res):
     bad = closed_handler_engine()
     res.note_case(("closed-handler-engine",), True)
@@ -627,6 +700,7 @@ def setup_half(ctx, res):
 def run(ctx, res):
     pool_half(ctx, res)
     setup_half(ctx, res)
+    pubsub_half(ctx, res)
     cases = gen_cases(ctx)
     results = pmap(work, cases)
     coq_cases = []
@@ -659,6 +733,16 @@ def replay(obj):
     if not case:
         print(obj)
         return 0
+    if case.get("pubsub"):
+        got, want = pubsub_impl(case["pubsub"], case["calls"])
+        first = got[:len(got) // want] if want and len(got) % want == 0 else got
+        model, _ = common.coq_eval("C02P", "Model.PubSub", "run_C02_pubsub [%s]" % "; ".join(str(k) for k in case["calls"]))
+        print("%s: subscribe() for subscribers %s, then one datum through the engine" % (case["pubsub"], case["calls"]))
+        print("implementation: callbacks to %s (%d notification(s))" % (got, want))
+        print("model         : one notification calls back %s" % model)
+        bad = got != first * want or first != model
+        print("a subscriber is not called back exactly once per notification" if bad else "every subscriber once per notification")
+        return 1 if bad else 0
     if case.get("closed_handler_engine"):
         bad = closed_handler_engine()
         print("oracle        :", bad or "every completed run got its complex event, execution and action event")
